@@ -477,6 +477,8 @@ def run(ctx):
         "hand-written model lean/StepModel/Lazy.lean of sectionReader.cc, lazyP21DataSectionReader.cc, lazyInstMgr.cc (modelled, tied by correspondence)",
         "STEPread/STEPwrite of a single instance and the header section reader are not modelled: observed only (lazy vs eager text)",
         "harness/h_lazy.cc, vlib/lazy_gen.py (what they do not generate is not compared)",
+        "the dictionary side of loadInstance's inverse step (which keywords are candidate referrers of which) enters the model as data "
+        "computed by vlib/lazy_gen.inv_keywords from the generated schema; the loaded set is also compared with an independent closure",
     ]
     ctx.assumptions += [
         "conforming files inside the layout class of notes/C10.md (white space and comments where both readers are specified for them)",
